@@ -96,7 +96,7 @@ Proof. exact reach_error_bound. Qed.
 (* non-vacuity of the certificate hypotheses: the 0.9-self-loop game with T = (12, 1, 11), M = 12 *)
 Example C01_certificate_exists :
   wf_game qops k4_game /\
-  (forall s, (1 + B (gkd k4_game) (gtr k4_game) (fun s => mem_nat s [0; 2]) k4_T s <= k4_T s)%Q) /\
+  (forall s, (1 + B (gkd k4_game) (gtr k4_game) (fun s => mem_nat s [0%nat; 2%nat]) k4_T s <= k4_T s)%Q) /\
   (forall s, (0 <= k4_T s <= 12)%Q).
 Proof. split; [exact k4_wf|exact k4_certificate]. Qed.
 
